@@ -493,6 +493,22 @@ class Gene:
                 )
         self.unique_regions = yml["structure"]["cn_regions"]
 
+    def _is_contiguous(self, pos: int, op: str) -> bool:
+        """
+        :returns: `True` if the reference bases replaced by a (strand-adjusted)
+            mutation occupy consecutive genome positions.
+        """
+        span = 1
+        if ">" in op:
+            span = len(op.split(">")[0])
+        elif op[:3] == "del":
+            span = len(op[3:].split("ins")[0])
+        start = self.ref_to_chr[pos]
+        return all(
+            self.ref_to_chr.get(pos + i * self.strand) == start + i
+            for i in range(span)
+        )
+
     def _init_alleles(self, yml) -> None:
         """
         Initialize allele (`alleles`, `common_tandems`) and copy number configurations
@@ -546,6 +562,8 @@ class Gene:
                     log.warn(f"Ignoring {pos}.{op} in {name} (not in {self.refseq})")
                 elif self.region_at(self.ref_to_chr[pos]) is None:
                     log.warn(f"Ignoring {pos}.{op} in {name} (not in named region)")
+                elif not self._is_contiguous(pos, op):
+                    log.warn(f"Ignoring {pos}.{op} in {name} (spans an alignment gap)")
                 else:
                     self.mutations.setdefault(
                         (self.ref_to_chr[pos], op),
